@@ -47,7 +47,9 @@ DocSeq == <<
   \* equal elements at several positions of one array (and a boolean / number look-alike between them)
   Arr(<<IntV(1), IntV(2), IntV(1), Bool(TRUE), IntV(2), Arr(<<>>), Null, Arr(<<>>), Null>>),
   \* containers below members whose names read as format directives or begin with a blank (the locations below them carry those names)
-  Obj(<<n_pd, n_pp, n_lsp>>, <<Arr(<<IntV(1), Obj(<<n_pp>>, <<IntV(2)>>)>>), Obj(<<n_a>>, <<IntV(3)>>), Arr(<<IntV(4)>>)>>)
+  Obj(<<n_pd, n_pp, n_lsp>>, <<Arr(<<IntV(1), Obj(<<n_pp>>, <<IntV(2)>>)>>), Obj(<<n_a>>, <<IntV(3)>>), Arr(<<IntV(4)>>)>>),
+  \* equal containers at several places (the harness also hands it over with each group of equal containers being ONE object)
+  Obj(<<n_a, n_b, n_x>>, <<Obj(<<n_y>>, <<Arr(<<IntV(1)>>)>>), Obj(<<n_y>>, <<Arr(<<IntV(1)>>)>>), Arr(<<Obj(<<n_y>>, <<Arr(<<IntV(1)>>)>>), Arr(<<IntV(1)>>)>>)>>)
 >>
 
 \* per-document node table: every node's location
